@@ -18,6 +18,22 @@ Proof.
   split; [intros [A B]; subst; reflexivity|intro H; inversion H; auto].
 Qed.
 
+(* identity is the PAIR of CompIDs *)
+Theorem sid_eq_pair : forall a b, sid_eq a b = true <-> sid_snd a = sid_snd b /\ sid_tgt a = sid_tgt b.
+Proof.
+  intros a b. unfold sid_eq. rewrite andb_true_iff, !beq_eq. split; intros [A B]; split; congruence.
+Qed.
+
+(* ... and not the printable id made by make_id, which is not injective: (A->B, C) and (A, B->C) *)
+Definition amb1 : sid := mkSid [65;45;62;66] [67].
+Definition amb2 : sid := mkSid [65] [66;45;62;67].
+Theorem sid_print_not_injective : forall begin,
+  amb1 <> amb2 /\ sid_print begin amb1 = sid_print begin amb2 /\ sid_eq amb1 amb2 = false /\ sid_ne amb1 amb2 = true.
+Proof.
+  intro begin. split; [discriminate|]. split; [|split; reflexivity].
+  unfold sid_print, amb1, amb2. cbn [sid_snd sid_tgt]. f_equal.
+Qed.
+
 (* operator!= is the negation of operator== (ab2c959) *)
 Theorem sid_ne_negb_eq : forall a b, sid_ne a b = negb (sid_eq a b).
 Proof. intros. unfold sid_ne, sid_eq. rewrite negb_andb. reflexivity. Qed.
